@@ -52,7 +52,24 @@ def gen_case(rng, tier, i):
             for o in comp['outs']:
                 if rng.random() < 0.6:
                     comp.setdefault('ref', {})[o] = rng.choice([[100.0, 0.0], [0.5, 0.0], [10.0, 1.0], [3.0, -2.0]])
-    if not lagging and rng.random() < 0.3:
+    cand = [(nm, comp, v) for nm, (comp, v) in free.items()
+            if v in comp['prom_in'] and nm not in spec.get('input_defaults', {}) and not comp.get('units', {}).get(v)]
+    if cand and not lagging and rng.random() < 0.5:
+        # the promoted name gets a default value and a second, shape_by_conn, input (connection resolution then
+        # runs a second time at final_setup)
+        nm, comp, v = rng.choice(cand)
+        parent = comp['path'].rsplit('.', 1)[0] if '.' in comp['path'] else ''
+        spec['sbc'] = {'group': parent, 'var': v, 'name': nm, 'val': [rng.choice([0.75, -1.5, 2.25]) for _ in range(comp['n'])]}
+    cand2 = [t for t in cand if t[0] != spec.get('sbc', {}).get('name')]
+    if cand2 and not lagging and rng.random() < 0.35:
+        # a promoted input that takes entries [idx] of a larger automatically created source
+        nm, comp, v = rng.choice(cand2)
+        nn = comp['n']
+        m = nn + rng.randint(1, 3)
+        comp['src_idx'] = {v: {'idx': sorted(rng.sample(range(m), nn)) if rng.random() < 0.7 else
+                               [rng.randrange(m) for _ in range(nn)], 'shape': m}}
+        spec['init'][nm] = [rng.choice([-1, 0.5, 1, 2, 3]) for _ in range(m)]
+    if not lagging and not spec.get('coupled') and rng.random() < 0.3:
         spec['discrete'] = True
         spec['init']['u_d'] = [rng.choice([-1, 0.5, 2, 3])]
     dvs = spec['dvs']
@@ -77,6 +94,9 @@ def gen_case(rng, tier, i):
         nm = rng.choice(ins + outs)
         k = rng.randrange(1, len(nm))
         partial = rng.choice([[nm[:k] + '*'], ['*' + nm[k:]], [nm], ['*.' + nm.rsplit('.', 1)[1]], []])
+    for pt in driver.get('points', []):
+        for item in pt:
+            item[1] = [item[1][0]] * len(spec['init'].get(item[0], item[1]))
     gpaths = sorted({cc['path'].rsplit('.', 1)[0] for cc in spec['comps'] if '.' in cc['path']})
     subrec = [g for g in gpaths if rng.random() < 0.5]
     # only_sub: the file is written by sub-group recorders alone (its promoted names are group-relative)
